@@ -409,6 +409,48 @@ func checkC11(p *Prog, rp *Report) {
 			}
 		}
 	}
+	// C11-TEXT: the signed text as clearsign hands it out never ends in a line terminator: the paragraphs of such a
+	// text (its last line included) are what the reader returns
+	{
+		tx := rp.Rule("C11-TEXT", "the verified text is parsed in full although it does not end in a newline", 1)
+		var problems []string
+		undecT := ""
+		for _, tc := range []struct {
+			text string
+			want string
+		}{
+			{"Source: x\nBinary: y", `[[Source="x" Binary="y"]]`},
+			{"Source: x", `[[Source="x"]]`},
+			{"A: 1\n\nB: 2\n c", `[[A="1"] [B="2\nc"]]`},
+			{"A: 1\n\nB: 2", `[[A="1"] [B="2"]]`},
+		} {
+			paras, why := readParagraphs(p, tc.text)
+			if strings.HasPrefix(why, "undecided") {
+				undecT = why
+				break
+			}
+			var got []string
+			for _, pa := range paras {
+				var parts []string
+				for _, k := range pa.order {
+					parts = append(parts, fmt.Sprintf("%s=%q", k, strings.TrimSuffix(pa.values[k], "\n")))
+				}
+				got = append(got, "["+strings.Join(parts, " ")+"]")
+			}
+			g := "[" + strings.Join(got, " ") + "]"
+			if why != "" {
+				g += " then " + why
+			}
+			if g != tc.want {
+				problems = append(problems, fmt.Sprintf("the signed text %q is read as %s, want %s", tc.text, g, tc.want))
+			}
+		}
+		if undecT != "" {
+			tx.undecided("control.ParagraphReader.Next", pos, undecT)
+		} else {
+			fillProblems(tx, "control.ParagraphReader.Next", pos, problems, "4 texts without a final line terminator (one and two paragraphs, a folded last field): every field of the last line is returned")
+		}
+	}
 	rp.Extra["scenarios"] = nscen
 	if undec != "" {
 		for _, r := range []*Rule{chk, same, repl, sgn, prop} {
